@@ -117,4 +117,27 @@ def _replay_plainname(model, rec):
         except TextXSemanticError as e:
             if kind not in str(e):
                 bad.append(f"{text!r}: {e} ({kind} expected)")
+    # builtins: used only when the model has no such object and only when the type conforms
+    class _B:
+        def __init__(self, name):
+            self.name = name
+
+    mm3 = metamodel_from_str("Model: things+=Thing others+=Other refs+=Ref orefs+=ORef; Thing: 'thing' name=ID;"
+                             " Other: 'other' name=ID; Ref: 'use' to=[Thing]; ORef: 'ouse' to=[Other];")
+    bt, bo = mm3["Thing"](), mm3["Other"]()
+    bt.name, bo.name = "std", "ostd"
+    mm3.builtins = {"std": bt, "ostd": bo, "local": bt}
+    m = mm3.model_from_str("thing local thing a other o use std use local use a ouse ostd ouse o")
+    if m.refs[0].to is not bt or m.orefs[0].to is not bo:
+        bad.append("a name without a model object did not resolve to the conforming builtins entry")
+    if m.refs[1].to is not m.things[0]:
+        bad.append("a model object was shadowed by the builtins entry of the same name")
+    if m.refs[2].to is not m.things[1] or m.orefs[1].to is not m.others[0]:
+        bad.append("plain references resolve wrongly when builtins are present")
+    try:
+        mm3.model_from_str("thing a other o use ostd ouse o")
+        bad.append("a builtins entry of a non-conforming type was accepted")
+    except TextXSemanticError as e:
+        if "Unknown object" not in str(e):
+            bad.append(f"non-conforming builtin: {e}")
     return bool(bad), "; ".join(bad) or "default resolution behaves as documented on the scenario battery"
